@@ -465,3 +465,12 @@ Example C04_archive_member_absolute_name :
              file_path := Some (s "out/bundle.zip!/srv/export/summary.txt"); folder_path := Some (s "out/bundle.zip!/srv/export") |}.
 Proof. vm_compute. repeat split. Qed.
 Print Assumptions C04_archive_member_absolute_name.
+
+(* ================================================================= ImageMetadata under mutation *)
+From S2T Require Import C04.ModelImeta C04.ProofsImeta.
+(* after ANY sequence of attribute assignments, item assignments and unit_index / image_index alias assignments
+   the dict item of every dataclass field is the attribute of that field *)
+Theorem C04_image_metadata_views_agree : forall (u n c w h : mval) (ops : list iop) (f : fld),
+  assoc (fld_name f) (d_items (run_ops (im_new u n c w h) ops)) = Some (attr f (run_ops (im_new u n c w h) ops)).
+Proof. intros u n c w h ops f. exact (run_ops_synced ops _ (im_new_synced u n c w h) f). Qed.
+Print Assumptions C04_image_metadata_views_agree.
